@@ -14,7 +14,7 @@ from sim.choices import Choices
 from sim.engine_d import DOpts
 from sim.oracles import check_ledger_unique
 
-from .common import Exec, compare_outcome, racy_sets, run_exec, task_kind
+from .common import Exec, compare_outcome, count_racy, racy_sets, run_exec, task_kind
 from .dflow import DCheck, one_violation
 
 PROFILE = {
@@ -59,6 +59,11 @@ def setup(ex: Exec, ch: Choices, info: dict[str, Any]) -> None:
         info["crash"] = list(w.crash_at)
 
 
+def _stage_of(prog: Any, task: str) -> str:
+    parts = task.split("_")
+    return parts[1] if len(parts) >= 3 else ""
+
+
 def judge(prog: Any, ref: Any, run: dict[str, Any], info: dict[str, Any]) -> list[dict[str, Any]]:
     problems: list[tuple[str, str, str]] = []
     if info.get("mode") == "crash":
@@ -69,11 +74,12 @@ def judge(prog: Any, ref: Any, run: dict[str, Any], info: dict[str, Any]) -> lis
         for c, m in compare_outcome(prog, ref, run):
             problems.append((c.split(":")[0], m, c))
         status_racy, _ = racy_sets(prog, ref["fs"])
+        cr = count_racy(prog)
         if not status_racy:
             diff = {t: (ref["counts"].get(t, 0), run["counts"].get(t, 0))
                     for t in set(ref["counts"]) | set(run["counts"])
                     if run["counts"].get(t, 0) != ref["counts"].get(t, 0)
-                    and task_kind(prog, t) not in ("poller", "transient")}
+                    and task_kind(prog, t) not in ("poller", "transient") and _stage_of(prog, t) not in cr}
             if diff:
                 problems.append(("execution-count-differs", f"task executions (sweep-free, with sweeps): {diff}", "exec-count"))
     for x in check_ledger_unique(run["h"], "C10"):
@@ -100,7 +106,8 @@ def judge_crash(prog: Any, ref: Any, run: dict[str, Any], info: dict[str, Any]) 
         if d:
             problems.append(("sweep-twice-differs", f"stage statuses (one sweep, two sweeps): {d}", "twice:stages"))
         dd = {t: (run["counts"].get(t, 0), two["counts"].get(t, 0)) for t in set(run["counts"]) | set(two["counts"])
-              if run["counts"].get(t, 0) != two["counts"].get(t, 0) and task_kind(prog, t) not in ("poller", "transient")}
+              if run["counts"].get(t, 0) != two["counts"].get(t, 0) and task_kind(prog, t) not in ("poller", "transient")
+              and _stage_of(prog, t) not in count_racy(prog)}
         if not status_racy and dd:
             problems.append(("sweep-twice-differs", f"task executions (one sweep, two sweeps): {dd}", "twice:ledger"))
     from sim.oracles import stale_applications
